@@ -26,6 +26,8 @@ import (
 // harness: a port owner whose sends and drains are events on the same engine.
 // The ledger is kept by hooks on the device ports.
 
+// netMsg: Src and Dst are device-port numbers (in single-port topologies the
+// port number is the device number).
 type netMsg struct {
 	Src   int `json:"s"`
 	Dst   int `json:"d"`
@@ -34,11 +36,15 @@ type netMsg struct {
 }
 
 type netCase struct {
-	Topo  string   `json:"topo"`
-	Flit  int      `json:"flit"`
-	Knob  int      `json:"knob"`            // 0 = builder defaults (mesh only), 1, 2 = latency/bandwidth/channel knob
-	Stall bool     `json:"stall,omitempty"` // devices do not drain before cycle netStallCycles
-	Msgs  []netMsg `json:"msgs"`
+	Topo  string `json:"topo"`
+	Flit  int    `json:"flit"`
+	Knob  int    `json:"knob"`            // 0 = builder defaults (mesh only), 1, 2 = latency/bandwidth/channel knob
+	Stall bool   `json:"stall,omitempty"` // no device port is drained before cycle netStallCycles
+	// StallMask: bit p set = port p alone is not drained before cycle
+	// netStallCycles while the other ports are drained one cycle after every
+	// arrival (multi-port topologies only)
+	StallMask int      `json:"stallmask,omitempty"`
+	Msgs      []netMsg `json:"msgs"`
 }
 
 const (
@@ -50,10 +56,36 @@ const (
 type netTopo struct {
 	name    string
 	devices int
+	// portsOf[d] = number of ports device d plugs into its one endpoint (nil: one each)
+	portsOf []int
 	// live: the statement promises delivery (mesh and tree topologies)
 	live  bool
 	knobs []int
-	build func(reg *capReg, ports []messaging.Port, flit, knob int)
+	// ports[d] are the ports of device d
+	build func(reg *capReg, ports [][]messaging.Port, flit, knob int)
+}
+
+func (t *netTopo) numPorts(d int) int {
+	if t.portsOf == nil {
+		return 1
+	}
+	return t.portsOf[d]
+}
+
+// portDevice returns the device of every port, ports numbered device by device.
+func (t *netTopo) portDevice() []int {
+	var out []int
+	for d := 0; d < t.devices; d++ {
+		for k := 0; k < t.numPorts(d); k++ {
+			out = append(out, d)
+		}
+	}
+	return out
+}
+
+func (t netTopo) withPorts(name string, portsOf ...int) netTopo {
+	t.name, t.portsOf = name, portsOf
+	return t
 }
 
 func genericParams(knob int) (networkconnector.DeviceToSwitchLinkParameter, networkconnector.SwitchToSwitchLinkParameter) {
@@ -69,7 +101,7 @@ func genericParams(knob int) (networkconnector.DeviceToSwitchLinkParameter, netw
 
 func genericTopo(name string, n int, edges [][2]int, devAt []int, live bool) netTopo {
 	return netTopo{name: name, devices: len(devAt), live: live, knobs: []int{1, 2},
-		build: func(reg *capReg, ports []messaging.Port, flit, knob int) {
+		build: func(reg *capReg, ports [][]messaging.Port, flit, knob int) {
 			conn := networkconnector.MakeConnector().WithRegistrar(reg).WithDefaultFreq(1 * timing.GHz).WithFlitSize(flit)
 			conn.NewNetwork("Net")
 			for i := 0; i < n; i++ {
@@ -80,7 +112,7 @@ func genericTopo(name string, n int, edges [][2]int, devAt []int, live bool) net
 				conn.ConnectSwitches(e[0], e[1], sp)
 			}
 			for d, s := range devAt {
-				conn.ConnectDevice(s, []messaging.Port{ports[d]}, dp)
+				conn.ConnectDevice(s, ports[d], dp)
 			}
 			conn.EstablishRoute()
 		}}
@@ -88,14 +120,14 @@ func genericTopo(name string, n int, edges [][2]int, devAt []int, live bool) net
 
 func meshTopo(name string, tiles [][3]int) netTopo {
 	return netTopo{name: name, devices: len(tiles), live: true, knobs: []int{0, 1, 2},
-		build: func(reg *capReg, ports []messaging.Port, flit, knob int) {
+		build: func(reg *capReg, ports [][]messaging.Port, flit, knob int) {
 			mc := mesh.NewConnector().WithRegistrar(reg).WithFreq(1 * timing.GHz).WithFlitSize(flit)
 			if knob > 0 {
 				mc = mc.WithSwitchLatency(knob).WithBandwidth(float64(knob))
 			}
 			mc.CreateNetwork("Mesh")
 			for d, loc := range tiles {
-				mc.AddTile(loc, []messaging.Port{ports[d]})
+				mc.AddTile(loc, ports[d])
 			}
 			mc.EstablishNetwork()
 		}}
@@ -105,16 +137,16 @@ func meshTopo(name string, tiles [][3]int) netTopo {
 // (0 = root) below which switch i+1 hangs; devSw[d-1] is the switch of device d.
 func pcieTopo(name string, parent []int, devSw []int) netTopo {
 	return netTopo{name: name, devices: 1 + len(devSw), live: true, knobs: []int{1, 2},
-		build: func(reg *capReg, ports []messaging.Port, flit, knob int) {
+		build: func(reg *capReg, ports [][]messaging.Port, flit, knob int) {
 			pc := pcie.NewConnector().WithRegistrar(reg).WithFrequency(1 * timing.GHz).
 				WithBandwidth(uint64(flit) * uint64(timing.GHz)).WithSwitchLatency(knob)
 			pc.CreateNetwork("PCIe")
-			ids := []int{pc.AddRootComplex([]messaging.Port{ports[0]})}
+			ids := []int{pc.AddRootComplex(ports[0])}
 			for _, p := range parent {
 				ids = append(ids, pc.AddSwitch(ids[p]))
 			}
 			for d, s := range devSw {
-				pc.PlugInDevice(ids[s], []messaging.Port{ports[d+1]})
+				pc.PlugInDevice(ids[s], ports[d+1])
 			}
 			pc.EstablishRoute()
 		}}
@@ -127,16 +159,16 @@ func pcieTopo(name string, parent []int, devSw []int) netTopo {
 // (checked against the IDs PlugInDevice returns).
 func hybridTopo(name string, accels int, nvlinks [][2]int) netTopo {
 	return netTopo{name: name, devices: 1 + accels, live: len(nvlinks) == 0, knobs: []int{1, 2},
-		build: func(reg *capReg, ports []messaging.Port, flit, knob int) {
+		build: func(reg *capReg, ports [][]messaging.Port, flit, knob int) {
 			nc := nvlink.NewConnector().WithRegistrar(reg).WithFrequency(1 * timing.GHz).
 				WithPCIeBandwidth(uint64(flit) * uint64(timing.GHz)).
 				WithPCIeSwitchLatency(knob).WithNVLinkSwitchLatency(knob)
 			nc.CreateNetwork("Hybrid")
-			root := nc.AddRootComplex([]messaging.Port{ports[0]})
+			root := nc.AddRootComplex(ports[0])
 			sw := nc.AddPCIeSwitch()
 			nc.ConnectSwitchesWithPCIeLink(root, sw)
 			for a := 0; a < accels; a++ {
-				if id := nc.PlugInDevice(sw, []messaging.Port{ports[1+a]}); id != 1+a {
+				if id := nc.PlugInDevice(sw, ports[1+a]); id != 1+a {
 					panic(fmt.Sprintf("harness: accelerator %d got NVLink device ID %d", 1+a, id))
 				}
 			}
@@ -164,6 +196,10 @@ var netTopos = []netTopo{
 	genericTopo("generic-star4", 4, [][2]int{{0, 1}, {0, 2}, {0, 3}}, []int{1, 2, 3}, true),
 	genericTopo("generic-ring3", 3, [][2]int{{0, 1}, {1, 2}, {0, 2}}, []int{0, 1, 2}, false),
 	genericTopo("generic-ring4", 4, [][2]int{{0, 1}, {1, 2}, {2, 3}, {0, 3}}, []int{0, 1, 3}, false),
+	// devices that plug two ports into one endpoint (ports 1 and 2 are the second device's)
+	meshTopo("", [][3]int{{0, 0, 0}, {0, 1, 0}}).withPorts("mesh-1x2-2port", 1, 2),
+	pcieTopo("", []int{0}, []int{1}).withPorts("pcie-root-sw-dev-2port", 1, 2),
+	genericTopo("", 2, [][2]int{{0, 1}}, []int{0, 1}, true).withPorts("generic-line2-2port", 1, 2),
 }
 
 func findNetTopo(name string) *netTopo {
@@ -182,6 +218,7 @@ type netDevices struct {
 	*messaging.PortOwnerBase
 	eng        *timing.SerialEngine
 	ports      []messaging.Port
+	stalled    []bool // per port: not drained before stallUntil
 	stallUntil timing.VTimeInPicoSec
 	metas      []messaging.MsgMeta
 	script     []netMsg
@@ -214,7 +251,7 @@ func (d *netDevices) NotifyRecv(p messaging.Port) {
 
 func (d *netDevices) scheduleDrain(dev int) {
 	t := d.eng.CurrentTime() + netCycle
-	if t < d.stallUntil {
+	if d.stalled[dev] && t < d.stallUntil {
 		t = d.stallUntil
 	}
 	d.eng.Schedule(netEvent{EventBase: timing.MakeEventBase(t, "Devices"), Send: -1, Drain: dev})
@@ -262,6 +299,16 @@ func (d *netDevices) Func(ctx hooking.HookCtx) {
 // process (cases never run concurrently inside one process); evidence only.
 var netLastEvents int
 
+func stallName(cs netCase) string {
+	switch {
+	case cs.Stall:
+		return "true"
+	case cs.StallMask != 0:
+		return fmt.Sprintf("ports%b", cs.StallMask)
+	}
+	return "false"
+}
+
 func runNetCase(cs netCase) (string, []lib.Problem) {
 	topo := findNetTopo(cs.Topo)
 	if topo == nil {
@@ -272,18 +319,30 @@ func runNetCase(cs netCase) (string, []lib.Problem) {
 	var probs []lib.Problem
 	bad := func(key, format string, a ...any) {
 		probs = append(probs, lib.Problem{Key: fmt.Sprintf("network:%s:%s", class, key),
-			What: fmt.Sprintf("%s flit=%d knob=%d stall=%v msgs=%v: ", cs.Topo, cs.Flit, cs.Knob, cs.Stall, cs.Msgs) + fmt.Sprintf(format, a...)})
+			What: fmt.Sprintf("%s flit=%d knob=%d stall=%s msgs=%v: ", cs.Topo, cs.Flit, cs.Knob, stallName(cs), cs.Msgs) + fmt.Sprintf(format, a...)})
 	}
 
 	reg := &capReg{eng: timing.NewSerialEngine()}
 	dev := &netDevices{PortOwnerBase: messaging.NewPortOwnerBase(), eng: reg.eng, script: cs.Msgs}
-	if cs.Stall {
-		dev.stallUntil = netStallCycles * netCycle
+	dev.stallUntil = netStallCycles * netCycle
+	devPorts := make([][]messaging.Port, topo.devices)
+	for d := 0; d < topo.devices; d++ {
+		for k := 0; k < topo.numPorts(d); k++ {
+			name := fmt.Sprintf("Dev[%d].Port", d)
+			if topo.numPorts(d) > 1 {
+				name = fmt.Sprintf("Dev[%d].Port[%d]", d, k)
+			}
+			p := messaging.NewPort(dev, 1, 4, name)
+			p.AcceptHook(dev)
+			dev.stalled = append(dev.stalled, cs.Stall || cs.StallMask>>len(dev.ports)&1 == 1)
+			dev.ports = append(dev.ports, p)
+			devPorts[d] = append(devPorts[d], p)
+		}
 	}
-	for i := 0; i < topo.devices; i++ {
-		p := messaging.NewPort(dev, 1, 4, fmt.Sprintf("Dev[%d].Port", i))
-		p.AcceptHook(dev)
-		dev.ports = append(dev.ports, p)
+	for _, m := range cs.Msgs {
+		if m.Src < 0 || m.Src >= len(dev.ports) || m.Dst < 0 || m.Dst >= len(dev.ports) {
+			return "bad-case", nil
+		}
 	}
 	for i, m := range cs.Msgs {
 		meta := messaging.MsgMeta{
@@ -299,7 +358,7 @@ func runNetCase(cs netCase) (string, []lib.Problem) {
 		dev.metas = append(dev.metas, meta)
 	}
 
-	msg, where := lib.CatchStack(func() { topo.build(reg, dev.ports, cs.Flit, cs.Knob) })
+	msg, where := lib.CatchStack(func() { topo.build(reg, devPorts, cs.Flit, cs.Knob) })
 	if msg != "" {
 		bad("build-panic", "building the network panicked: %s at %s", msg, where)
 		return "build-panic", probs
@@ -309,8 +368,8 @@ func runNetCase(cs netCase) (string, []lib.Problem) {
 	for i, m := range cs.Msgs {
 		reg.eng.Schedule(netEvent{EventBase: timing.MakeEventBase(timing.VTimeInPicoSec(m.Tick)*netCycle, "Devices"), Send: i, Drain: -1})
 	}
-	if cs.Stall {
-		for i := range dev.ports {
+	for i := range dev.ports {
+		if dev.stalled[i] {
 			reg.eng.Schedule(netEvent{EventBase: timing.MakeEventBase(dev.stallUntil, "Devices"), Send: -1, Drain: i})
 		}
 	}
@@ -385,7 +444,7 @@ func runNetCase(cs netCase) (string, []lib.Problem) {
 		// not part of the property: everything arrived, the network just keeps ticking
 		liveness = "all-delivered-still-running"
 	}
-	return fmt.Sprintf("%s flit%d knob%d stall=%v n%d %s", cs.Topo, cs.Flit, cs.Knob, cs.Stall, len(cs.Msgs), liveness), dedupeProblems(probs)
+	return fmt.Sprintf("%s flit%d knob%d stall=%s n%d %s", cs.Topo, cs.Flit, cs.Knob, stallName(cs), len(cs.Msgs), liveness), dedupeProblems(probs)
 }
 
 // multisets yields every non-decreasing index sequence of length k over n options.
@@ -407,11 +466,12 @@ func multisets(n, k int, yield func([]int) bool) bool {
 	return rec(0, 0)
 }
 
-func netOptions(devices int, sizes []int, maxTick int) []netMsg {
+// netOptions: every (port, port of another device, size, tick).
+func netOptions(portDev []int, sizes []int, maxTick int) []netMsg {
 	var out []netMsg
-	for s := 0; s < devices; s++ {
-		for d := 0; d < devices; d++ {
-			if s == d {
+	for s := range portDev {
+		for d := range portDev {
+			if portDev[s] == portDev[d] {
 				continue
 			}
 			for _, b := range sizes {
@@ -432,18 +492,31 @@ func enumNetCases(thorough bool, yield func(netCase) bool) {
 		fullUpTo, redAt = 3, 4
 	}
 	for _, topo := range netTopos {
-		full := netOptions(topo.devices, fullSizes, 1)
-		red := netOptions(topo.devices, redSizes, 0)
+		portDev := topo.portDevice()
+		full := netOptions(portDev, fullSizes, 1)
+		red := netOptions(portDev, redSizes, 0)
+		// drain modes: always, nothing before cycle 60, and (ports of multi-port
+		// devices) that one port alone not before cycle 60
+		type drain struct {
+			all  bool
+			mask int
+		}
+		drains := []drain{{false, 0}, {true, 0}}
+		for p, d := range portDev {
+			if topo.numPorts(d) > 1 {
+				drains = append(drains, drain{false, 1 << p})
+			}
+		}
 		for _, flit := range []int{8, 64} {
 			for _, knob := range topo.knobs {
-				for _, stall := range []bool{false, true} {
+				for _, dr := range drains {
 					emit := func(opts []netMsg, k int) bool {
 						return multisets(len(opts), k, func(idx []int) bool {
 							msgs := make([]netMsg, k)
 							for i, v := range idx {
 								msgs[i] = opts[v]
 							}
-							return yield(netCase{Topo: topo.name, Flit: flit, Knob: knob, Stall: stall, Msgs: msgs})
+							return yield(netCase{Topo: topo.name, Flit: flit, Knob: knob, Stall: dr.all, StallMask: dr.mask, Msgs: msgs})
 						})
 					}
 					for k := 1; k <= fullUpTo; k++ {
@@ -464,14 +537,14 @@ func init() {
 	lib.Register(&lib.Check{
 		ID:    "C29",
 		Level: "exploration",
-		Rule: "every (topology, flit size, knob, drain mode, message multiset): 16 topologies built with the real connectors — mesh {1x2, 3x1, 2x2, 2x2x2} with 2..3 device tiles, PCIe trees {root+switch+1 device, root+switch+2 devices, root+switch+switch, root+2 switches} with the CPU on the root, NVLink/PCIe hybrids {CPU + 1 accelerator, CPU + 2 accelerators: without NVLink, with an NVLink between the accelerators, with an NVLink between the CPU's and the first accelerator's NVLink switch}, generic {line3, star4, ring3, ring4}; flit size {8,64}; " +
-			"knob {1,2} = switch latency (mesh: also transfers per cycle; generic: also channels and buffer sizes; hybrid: also NVLink latency/width), mesh additionally with the builder defaults; devices drain one cycle after each arrival, or not before cycle 60; " +
-			"messages = every multiset of <= 2 (thorough <= 3) messages over (ordered device pair, TrafficBytes in {0,1,64,100}, send tick in {0,1}) plus every multiset of 3 (thorough 4) over (ordered device pair, TrafficBytes in {0,100}, send tick 0), sent in canonical order; the real network is run on the real serial engine until idle (or an event budget); " +
+		Rule: "every (topology, flit size, knob, drain mode, message multiset): 19 topologies built with the real connectors — mesh {1x2, 3x1, 2x2, 2x2x2} with 2..3 device tiles, PCIe trees {root+switch+1 device, root+switch+2 devices, root+switch+switch, root+2 switches} with the CPU on the root, NVLink/PCIe hybrids {CPU + 1 accelerator, CPU + 2 accelerators: without NVLink, with an NVLink between the accelerators, with an NVLink between the CPU's and the first accelerator's NVLink switch}, generic {line3, star4, ring3, ring4}, each device with one port, plus {mesh 1x2, PCIe root+switch+device, generic line2} in which the second device plugs two ports into its one endpoint; flit size {8,64}; " +
+			"knob {1,2} = switch latency (mesh: also transfers per cycle; generic: also channels and buffer sizes; hybrid: also NVLink latency/width), mesh additionally with the builder defaults; device ports are drained one cycle after each arrival, or none before cycle 60, or (each port of a two-port device in turn) that port alone not before cycle 60 while its sibling is drained every cycle; " +
+			"messages = every multiset of <= 2 (thorough <= 3) messages over (ordered pair of ports of different devices, TrafficBytes in {0,1,64,100}, send tick in {0,1}) plus every multiset of 3 (thorough 4) over (ordered port pair, TrafficBytes in {0,100}, send tick 0), sent in canonical order; the real network is run on the real serial engine until idle (or an event budget); " +
 			"hooks on the device ports give the ledger: every delivery must be a sent message, at its Dst port, with identical MsgMeta, at most once; in mesh/tree topologies every message must be delivered (before the network goes idle or the event budget, far above the largest event count of any case, runs out). Each tuple is a distinct case.",
 		Sharded:     true,
 		MinOutcomes: 30,
 		Assumptions: []string{
-			"devices are played by the harness (one port owner, sends and drains are events on the same engine); one port per device, incoming capacity 1, outgoing capacity 4",
+			"devices are played by the harness (one port owner, sends and drains are events on the same engine); one port per device (two for one device of the three multi-port topologies), incoming capacity 1, outgoing capacity 4; no messages between two ports of the same device",
 			"liveness is demanded only for mesh and tree topologies (incl. the hybrid without NVLink); for rings and NVLink hybrids only at-most-once, right place, intact metadata",
 			"ideal links only (the connectors refuse non-ideal links); Ethernet links of the NVLink connector are therefore not covered",
 			"message sets of the largest size use TrafficBytes {0,100} and send tick 0 only (bound stated in the rule)",
